@@ -531,7 +531,13 @@ def judge_case(files, tools, workdir, st, intended=None):
     if not viols:
         return []
     causes = {}
-    for name, fn, text in MUTATIONS:
+
+    def all_of_them(c):
+        for _, fn, _ in MUTATIONS:
+            c = fn(c)
+        return c
+    for name, fn, text in MUTATIONS + [("several of: byte 0xFF, identifier subninj?, $ CR LF continuation", all_of_them,
+                                        "only after all three rewrites together")]:
         mf = {k: fn(v) for k, v in files.items()}
         if mf == files:
             continue
